@@ -294,7 +294,7 @@ def gen_cases(rng, tier, budget):
     bad_aaas = [MAPPED + "00000000", V6, "00" * 16]
     for i in range(nsess):
         aaa = rng.choice(bad_aaas) if i % 8 == 7 else rng.choice(aaas)
-        assigned = "64400001" if aaa == "none" else aaa[-8:]
+        assigned = "0a000007" if aaa == "none" else aaa[-8:]     # no AAA address: IPCP is not started at all
         reqs = [[], [opt(3, assigned)], [opt(3, assigned)], [opt(3, "00000000")], [opt(3, "0a000006")],
                 [opt(3, "06060606")], [opt(129, "00000000")], [opt(129, "01010101"), opt(131, "00000000")],
                 [opt(3, assigned), opt(129, "08080808")], [opt(3, assigned), opt(129, "00000000")],
@@ -539,37 +539,37 @@ def _monitor(case, impl, out):
                             hit("IPv6CP Configure-Ack carries %d.%s" % (t, d))
         elif f[0] == "sess":
             parts = impl.split(" | ")
-            first = dict(x.split("=", 1) for x in parts[0].split())
-            pa = first.get("pa")
-            if pa is None or pa in ("nil", "h00000000") or len(pa) != 9:
-                hit("startNCP left the session without a usable assigned address (pa=%s)" % pa, "aaa")
-                return          # everything after that is a consequence
             seen_pa = set()
-            for ev, p in zip(f[2:], parts[1:]):
+            pa = None
+            for ev, p in zip(["start"] + f[2:], parts):
                 toks = p.split()
-                kv0 = dict(x.split("=", 1) for x in toks if "=" in x)
-                seen_pa.add(pa)
-                pa = kv0.get("pa", pa)
-                if pa in ("nil", "h00000000") or len(pa) != 9:
-                    hit("startNCP left the session without a usable assigned address (pa=%s)" % pa, "aaa")
-                    return
+                kv = dict(x.split("=", 1) for x in toks if "=" in x)
+                if pa is not None:
+                    seen_pa.add(pa)
+                pa, a = kv.get("pa"), kv.get("a")
+                sent = [t for t in toks if t.startswith(("sca:", "scn:", "scj:", "scr:"))]
+                if pa == "nil":
+                    # IPCP not started: no address, closed, silent
+                    if a != "nil" or kv.get("up") == "1" or sent:
+                        hit("IPCP without an assigned address: a=%s up=%s sent=%s" % (a, kv.get("up"), sent[:2]), "aaa")
+                        return
+                    continue
+                if pa is None or pa == "h00000000" or len(pa) != 9:
+                    hit("IPCP runs without a usable assigned address (pa=%s)" % pa, "aaa")
+                    return          # everything after that is a consequence
+                if a != pa:
+                    hit("session address %s differs from the assigned address %s" % (a, pa),
+                        "adopt" if (a in seen_pa or (a == "nil" and ev[0] != "R")) else ("aaa" if a == "nil" else None))
                 if ev[0] == "q":
                     req = parse_wire(ev.split(".", 1)[1])
-                    for a in toks:
-                        if a.startswith("sca:"):
-                            os = parse_opts(a.split(":", 2)[2])
+                    for t in toks:
+                        if t.startswith("sca:"):
+                            os = parse_opts(t.split(":", 2)[2])
                             if req is None or req != os:
-                                hit("Configure-Ack %s does not echo the request %s" % (a, ev[:120]))
-                kv = dict(x.split("=", 1) for x in toks if "=" in x)
-                if kv.get("a") != pa:
-                    hit("session address %s differs from the assigned address %s" % (kv.get("a"), pa),
-                        "adopt" if (kv.get("a") == "nil" or kv.get("a") in seen_pa) else None)
-                for a in toks:
-                    if a.startswith("sca:"):
-                        for t, d in parse_opts(a.split(":", 2)[2]):
-                            if t == 3 and "h" + d != pa:
-                                hit("Configure-Ack carries address %s while %s is assigned" % (d, pa))
-
+                                hit("Configure-Ack %s does not echo the request %s" % (t, ev[:120]))
+                            for ty, d in os:
+                                if ty == 3 and "h" + d != pa:
+                                    hit("Configure-Ack carries address %s while %s is assigned" % (d, pa))
 
 SIG_OF_CLASS = {"auth": "lcp-acks-chap-with-unsupported-algorithm",
                 "adopt": "ipcp-up-without-address-option-adopts-nil",
